@@ -64,7 +64,7 @@ class _Expand(ast.NodeTransformer):
 def expanded_src(fn, node):
     """Source of *node* with every single-assignment local of fn replaced by its defining expression:
     the text no longer depends on how (or whether) fn names its intermediate values."""
-    return A.src(_Expand(fn).visit(A._clone(node, {})))
+    return A.src(ast.fix_missing_locations(_Expand(fn).visit(A._clone(node, {}))))
 
 
 def stable_name(fn, node, ordinal=0):
